@@ -5,6 +5,9 @@ From TS Require Import Model.Str Model.Outcome Model.Unicode Model.Syntax Model.
                        Model.Lang.TypeScript Model.Lang.Kotlin Model.Lang.Swift Model.Lang.Scala Model.Lang.Go Model.Lang.Python
                        Spec.Serde Spec.C02Spec.
 From TS Require Proofs.C02 Proofs.C02_TS Proofs.C02_KtSc Proofs.C02_Swift Proofs.C02_Go Proofs.C02_Py Proofs.C02_Witness Proofs.GoAcronyms.
+From TS Require Import Model.MultiFile.
+From TS Require Proofs.C12Multi Proofs.C12MultiTS Proofs.C12MultiSwift Proofs.C12MultiGo Proofs.MultiSameItems.
+Import ListNotations.
 
 (* Front end.  For every Unicode table agreeing with ASCII below 128, every --target-os list, every
    enum item (any number of variants, any attribute layout) that typeshare turns into an enum: if the
@@ -203,3 +206,78 @@ Theorem C02_go_acronym_case_collision_refuted :
     [Proofs.C02_Witness.c02_w_tuple [] "UserId" "u8"; Proofs.C02_Witness.c02_w_unit [] "UserID"] "C02-go-acronym-case-collision".
 Proof. exact Proofs.C02_Witness.C02_go_acronym_case_collision_refuted. Qed.
 Print Assumptions C02_allcaps_refuted.
+
+(* =============================================================================================
+   FOLDER (multi-file) MODE.  The declarations of a crate's folder-mode file - Proofs.C12Multi*.<l>_multi_decls from
+   ANY state the earlier crates of the run left (Props/C12.v C12_multi_<l>_layout ties them to the text; for Kotlin
+   and Scala kt_decls / sc_decls themselves) - are, item by item of the sorted crate, what the item writer returns
+   from every state (Props/C01.v C01_multi_decls_items_<l>, C01_multi_decls_state_independent_<l>).  Hence for every
+   enum of the crate the conclusion of C02_back_<l>, under its hypotheses and none about the state. *)
+Theorem C02_multi_back_ts :
+  forall uc cfg st pd ds st',
+  Proofs.C12MultiTS.ts_multi_decls uc cfg st pd = Ok (ds, st') ->
+  exists items, Model.Topsort.topsort (items_of pd) = Ok items /\
+    Forall2 (fun it d => forall e, it = ItEnum e -> dom_C02_back (c02_expect_ir e) = true ->
+                                   good_C02 TypeScript (c02_expect_ir e) [ts_obs d] = true) items ds.
+Proof. exact Proofs.MultiSameItems.c02_multi_back_ts. Qed.
+Print Assumptions C02_multi_back_ts.
+
+Theorem C02_multi_back_swift :
+  forall uc cfg acr st pd ds st',
+  Proofs.C12MultiSwift.sw_multi_decls uc cfg st pd = Ok (ds, st') ->
+  exists items, Model.Topsort.topsort (items_of pd) = Ok items /\
+    Forall2 (fun it d => forall e, it = ItEnum e -> dom_C02_back (c02_expect_ir e) = true ->
+                                   known_C02_back Swift acr (c02_expect_ir e) = None ->
+                                   good_C02 Swift (c02_expect_ir e) (sw_obs d) = true) items ds.
+Proof. exact Proofs.MultiSameItems.c02_multi_back_sw. Qed.
+Print Assumptions C02_multi_back_swift.
+
+Theorem C02_multi_back_python :
+  forall uc (Huc : unicode_ok uc) cfg acr st pd ds st',
+  Proofs.C12Multi.py_multi_decls uc cfg st pd = Ok (ds, st') ->
+  exists items dss, Model.Topsort.topsort (items_of pd) = Ok items /\ ds = List.concat dss /\
+    Forall2 (fun it d => forall e, it = ItEnum e -> dom_C02_back (c02_expect_ir e) = true ->
+                                   known_C02_back Python acr (c02_expect_ir e) = None ->
+                                   good_C02 Python (c02_expect_ir e) (flat_map py_obs d) = true) items dss.
+Proof. exact Proofs.MultiSameItems.c02_multi_back_py. Qed.
+Print Assumptions C02_multi_back_python.
+
+Theorem C02_multi_back_go :
+  forall uc (Huc : unicode_ok uc) cfg st pd ds st',
+  forallb (forallb is_ascii) (go_uppercase_acronyms cfg) = true ->
+  Proofs.C12MultiGo.go_multi_decls uc cfg st pd = Ok (ds, st') ->
+  exists items dss, Model.Topsort.topsort (items_of pd) = Ok items /\ ds = List.concat dss /\
+    Forall2 (fun it d => forall e, it = ItEnum e -> dom_C02_back (c02_expect_ir e) = true ->
+               known_C02_back Go (match go_uppercase_acronyms cfg with [] => false | _ => true end) (c02_expect_ir e) = None ->
+               good_C02 Go (c02_expect_ir e) (flat_map go_obs d) = true) items dss.
+Proof. exact Proofs.MultiSameItems.c02_multi_back_go. Qed.
+Print Assumptions C02_multi_back_go.
+
+Theorem C02_multi_back_go_partial :
+  forall uc cfg st pd ds st',
+  Proofs.C12MultiGo.go_multi_decls uc cfg st pd = Ok (ds, st') ->
+  exists items dss, Model.Topsort.topsort (items_of pd) = Ok items /\ ds = List.concat dss /\
+    Forall2 (fun it d => forall e, it = ItEnum e -> dom_C02_back (c02_expect_ir e) = true ->
+               c02_good_core Go (c02_expect_ir e) (flat_map go_obs d) = true /\
+               (go_uppercase_acronyms cfg = [] -> c02_good_cases (flat_map go_obs d) = true)) items dss.
+Proof. exact Proofs.MultiSameItems.c02_multi_back_go_core. Qed.
+Print Assumptions C02_multi_back_go_partial.
+
+Theorem C02_multi_back_kotlin :
+  forall uc cfg acr c im pd text,
+  kt_generate_multi uc cfg c im pd = Ok text ->
+  exists ds items dss, kt_decls uc cfg pd = Ok ds /\ Model.Topsort.topsort (items_of pd) = Ok items /\ ds = List.concat dss /\
+    Forall2 (fun it d => forall e, it = ItEnum e -> dom_C02_back (c02_expect_ir e) = true ->
+                                   known_C02_back Kotlin acr (c02_expect_ir e) = None ->
+                                   good_C02 Kotlin (c02_expect_ir e) (map kt_obs d) = true) items dss.
+Proof. exact Proofs.MultiSameItems.c02_multi_back_kt. Qed.
+Print Assumptions C02_multi_back_kotlin.
+
+Theorem C02_multi_back_scala :
+  forall uc cfg pd text,
+  sc_generate uc cfg pd = Ok text ->
+  exists objs pkgs sts ens, sc_decls uc cfg pd = Ok (objs, pkgs) /\ pkgs = sts ++ List.concat ens /\
+    Forall2 (fun e d => dom_C02_back (c02_expect_ir e) = true ->
+                        good_C02 Scala (c02_expect_ir e) (flat_map sc_obs d) = true) (p_enums pd) ens.
+Proof. exact Proofs.MultiSameItems.c02_multi_back_sc. Qed.
+Print Assumptions C02_multi_back_scala.
